@@ -551,5 +551,11 @@ def runWrap (override : Bool) : List (Name × TopAttr) → List WStep → Except
     | .ok a => runWrap override (kset st.name a ns) r
     | .error e => .error e
 
+/-- the exception `add_model` raises while binding the wrappers, if any -/
+def wrapOutcome (override : Bool) (ns : List (Name × TopAttr)) (steps : List WStep) : Option WErr :=
+  match runWrap override ns steps with
+  | .ok _ => none
+  | .error e => some e
+
 end Helpers
 end TM
